@@ -99,7 +99,7 @@ def unit_gw(ctx):
             return {"lines": [], "error": "gen-gw failed: " + out[-2000:]}
         # corpus histories first (indices from 1000000 up), then the generated ones
         core.run("cat %s %s.gen > %s 2>/dev/null || cp %s.gen %s" % (corpus, hist, hist, hist, hist))
-        err = run_gw_driver(ctx, hist, trace)
+        err = run_sharded(ctx.bin("drv_gw.test"), hist, trace, "drv_gw")
         if err:
             return {"lines": [], "error": err}
         rc, out, _ = core.run("%s cmp-gw %s %s > %s.tmp && mv %s.tmp %s" % (core.DRIVER, hist, trace, res, res, res))
@@ -179,6 +179,47 @@ def run_restarting(binary, hist, trace, what):
     return what + " crashed too many times"
 
 
+def run_sharded(binary, hist, trace, what, shards=14):
+    """Split a history file into `shards` files (whole histories, round-robin), run one driver
+    process per file in parallel (each restarts after a crash as run_restarting does) and
+    concatenate the traces.  The analysers index histories by their number, so order is free."""
+    from concurrent.futures import ThreadPoolExecutor
+    blocks, cur = [], []
+    with open(hist) as f:
+        for line in f:
+            cur.append(line)
+            if line.strip() == "END":
+                blocks.append(cur)
+                cur = []
+    if len(blocks) < 4 * shards:
+        return run_restarting(binary, hist, trace, what)
+    # corpus histories carry indices >= 1000000 and come first: keep each shard sorted by index
+    parts = [[] for _ in range(shards)]
+    for k, b in enumerate(blocks):
+        parts[k % shards].append(b)
+    jobs = []
+    for k, part in enumerate(parts):
+        hp, tp = "%s.s%d" % (hist, k), "%s.s%d" % (trace, k)
+        part.sort(key=lambda b: int(b[0].split()[1]))
+        with open(hp, "w") as f:
+            for b in part:
+                f.writelines(b)
+        jobs.append((hp, tp))
+    with ThreadPoolExecutor(max_workers=shards) as ex:
+        errs = list(ex.map(lambda j: run_restarting(binary, j[0], j[1], what), jobs))
+    with open(trace, "w") as out:
+        for hp, tp in jobs:
+            if os.path.exists(tp):
+                with open(tp) as f:
+                    out.write(f.read())
+                os.remove(tp)
+            os.remove(hp)
+    for e in errs:
+        if e:
+            return e
+    return None
+
+
 def unit_txn(ctx):
     d = core.shared_dir("txn", ctx.tier, ctx.seed)
     res, hist, trace = os.path.join(d, "txn.res"), os.path.join(d, "txn.hist"), os.path.join(d, "txn.impl")
@@ -240,7 +281,7 @@ def unit_client(ctx):
         rc, out, _ = core.run("%s gen-cl %d %d %s" % (core.DRIVER, ctx.seed, n, hist))
         if rc != 0:
             return {"lines": [], "error": "gen-cl failed: " + out[-2000:]}
-        err = run_restarting(ctx.bin("drv_client.test"), hist, trace, "drv_client")
+        err = run_sharded(ctx.bin("drv_client.test"), hist, trace, "drv_client")
         if err:
             return {"lines": [], "error": err}
         rc, out, _ = core.run("%s cmp-cl %s %s > %s.tmp && mv %s.tmp %s" % (core.DRIVER, hist, trace, res, res, res))
@@ -393,3 +434,43 @@ PROPS = {
         "assumptions": GW_ASSUME,
     },
 }
+
+
+GW_KINDS_ALL = [r"."]   # any divergence of the session trace breaks the tie of a translation property
+
+
+def gw_prop(theorems, kinds, extra_assumptions=()):
+    return {
+        "theorems": theorems,
+        "drivers": ["drv_gw.test"],
+        "units": [Unit("drv_gw", unit_gw)],
+        "mismatch_kinds": kinds,
+        "rule": GW_RULE,
+        "assumptions": GW_ASSUME + list(extra_assumptions),
+    }
+
+
+PROPS.update({
+    "C01": gw_prop(["C01_forward_exact", "C01_never_forward_unknown", "C01_checker_sound", "C01_all_histories"],
+                   [r"MQ:PUBLISH", r"SN:(Regack|Suback|Register|Connack)", r"^(END|CLOSE)", r"PANIC", r"MISSING-"]),
+    "C02": gw_prop(["C02_checker_sound_partial", "C02_all_histories", "C02_refuted"],
+                   [r"SN:(Publish|Register|Regack|Suback)", r"^(END|CLOSE)", r"PANIC", r"MISSING-"]),
+    "C03": gw_prop(["C03_checker_sound", "C03_all_histories"],
+                   [r"MQ:(SUBSCRIBE|UNSUBSCRIBE|PUBREL|PINGREQ|DISCONNECT)", r"SN:(Pubrec|Pubcomp|Unsuback|Suback|Pingresp)",
+                    r"PANIC", r"MISSING-"]),
+    "C04": gw_prop(["C04_checker_sound", "C04_side_condition_invariant", "C04_all_histories", "C04_refuted"],
+                   [r"SN:(Regack|Suback|Register)", r"PANIC", r"MISSING-"]),
+    "C07": gw_prop(["C07_checker_sound", "C07_all_histories", "C07_connected_implies_accepted"],
+                   [r"SN:Connack", r"MQ:", r"^(END|CLOSE)", r"PANIC", r"MISSING-"]),
+    "C08": gw_prop(["C08_checker_sound", "C08_all_histories", "C08_excluded_is_rejected"],
+                   [r"MQ:CONNECT", r"SN:Connack", r"PANIC", r"MISSING-"]),
+    "C09": gw_prop(["C09_checker_sound", "C09_all_histories"],
+                   [r"MQ:CONNECT", r"SN:(Connack|WillTopicReq|WillMsgReq)", r"PANIC", r"MISSING-"]),
+    "C11": gw_prop(["C11_checker_sound", "C11_all_histories", "C11_asleep_again", "C11_refuted"],
+                   [r"SN:", r"TIME", r"PANIC", r"MISSING-"]),
+    "C24": gw_prop(["C24_checker_sound", "C24_all_histories"],
+                   [r"MQ", r"PANIC", r"MISSING-"],
+                   ["the configuration does not set a broker password without a user name and has no predefined topic "
+                    "with an empty name; the broker's PUBLISHes carry a non-empty topic and a non-zero packet identifier "
+                    "for QoS > 0 (hypotheses wf_cfg', wf_event' of the theorem)"]),
+})
